@@ -350,6 +350,83 @@ def _worker(job):
     return {"ws": job["ws"], "n": len(job["tis"]), "counts": dict(counts), "results": results, "samples": samples, "wrap": wrap.snapshot(), "polars_raises": {"%s/%s" % k: v for k, v in _POLARS_RAISES.items() if v}}
 
 
+# --------------------------------------------------------------------------------------------------
+# two consecutive windowed extends over the same partition whose orderings use the same columns in a
+# different priority: each step's values must follow ITS declared order (the builder may only merge steps
+# with identical window specifications)
+# --------------------------------------------------------------------------------------------------
+SEQ_FIRST = {"cumsum_x": ("x.cumsum()", "cumsum", "x", None), "row_number": ("_row_number()", "_row_number", None, None)}
+SEQ_SECOND = {"cumsum_x_2": ("x.cumsum()", "cumsum", "x", None), "row_number_2": ("_row_number()", "_row_number", None, None)}
+
+
+def _worker_seq(job):
+    from data_algebra import TableDescription
+
+    sc = job["sc"]
+    ws = {w["id"]: w for w in window_specs()}[job["ws"]]
+    tabs = tables(ws["np"], ws["no"], sc["max_rows"])
+    ob2 = list(reversed(ws["order_by"]))
+    td = TableDescription(table_name="d", column_names=list(SCHEMA))
+    ops = td.extend({k: v[0] for k, v in SEQ_FIRST.items()}, partition_by=list(ws["partition_by"]), order_by=list(ws["order_by"]), reverse=list(ws["reverse"]) or None) \
+        .extend({k: v[0] for k, v in SEQ_SECOND.items()}, partition_by=list(ws["partition_by"]), order_by=ob2, reverse=list(ws["reverse"]) or None)
+    text = "d.extend(%r, partition_by=%r, order_by=%r, reverse=%r).extend(%r, partition_by=%r, order_by=%r, reverse=%r)" % (
+        {k: v[0] for k, v in SEQ_FIRST.items()}, ws["partition_by"], ws["order_by"], ws["reverse"], {k: v[0] for k, v in SEQ_SECOND.items()}, ws["partition_by"], ob2, ws["reverse"])
+    cols = list(SCHEMA)
+    fns = list(SEQ_FIRST) + list(SEQ_SECOND)
+    counts = collections.Counter()
+    results = []
+    for ti in job["tis"]:
+        table = tabs[ti]
+        if len(table["x"]) < 2:
+            continue
+        c1, r1 = O.ref_window(cols, O.table_rows(table, cols), ws["partition_by"], ws["order_by"], ws["reverse"], {k: v[1:] for k, v in SEQ_FIRST.items()})
+        c2, r2 = O.ref_window(c1, r1, ws["partition_by"], ob2, ws["reverse"], {k: v[1:] for k, v in SEQ_SECOND.items()})
+        exp = (c2, r2)
+        for be in BACKENDS:
+            holder = {}
+
+            def check(obs):
+                holder["cmp"] = compare(exp, obs, fns)
+                c = holder["cmp"]
+                bad = [f for f, b in c["fns"].items() if b]
+                return (c["frame"] is None and not bad), (c["frame"] or ("functions with wrong values: %r" % bad if bad else ""))
+
+            try:
+                r = CB.run(be, ops, "seq|%s|%s" % (ws["id"], be), {"d": (table, SCHEMA)}, check)
+            except Exception as e:
+                results.append({"harness": "%s: %s" % (type(e).__name__, e), "ti": ti, "be": be})
+                continue
+            if r["obs"][0] != "ok":
+                st = "skipped" if be == "polars" else "raise"
+                counts["seq:%s:%s" % (be, st)] += 1
+                if st == "raise":
+                    results.append({"be": be, "ti": ti, "status": "raise", "detail": "%s: %s" % (r["obs"][1], r["obs"][2]), "text": text, "table": table})
+                continue
+            c = holder["cmp"]
+            bad = [f for f, b in c["fns"].items() if b]
+            if c["frame"] is not None or bad:
+                counts["seq:%s:fail" % be] += 1
+                d = c["frame"] or "; ".join("%s row %r: expected %r, observed %r" % (f, c["fns"][f][0][0], c["fns"][f][0][1], c["fns"][f][0][2]) for f in bad)
+                results.append({"be": be, "ti": ti, "status": "fail", "detail": d[:400], "text": text, "table": table})
+            else:
+                counts["seq:%s:ok" % be] += 1
+    return {"ws": job["ws"], "counts": dict(counts), "results": results, "wrap": wrap.snapshot()}
+
+
+def make_seq_jobs(tier: str):
+    sc = scope(tier)
+    jobs = []
+    for ws in window_specs():
+        if ws["no"] != 2:
+            continue
+        n = len(tables(ws["np"], ws["no"], sc["max_rows"]))
+        step = 3 if tier == "quick" else 1  # quick: every third table
+        tis = list(range(0, n, step))
+        for i in range(0, len(tis), 120):
+            jobs.append({"ws": ws["id"], "tis": tis[i:i + 120], "sc": sc})
+    return jobs
+
+
 def make_jobs(tier: str):
     sc = scope(tier)
     jobs = []
@@ -384,6 +461,18 @@ def bounded(rep: Report, tier: str, seed: int) -> None:
             ws = {w["id"]: w for w in window_specs()}[o["ws"]]
             what = "%s %s for %s in %s with d=%s: %s" % (r["be"], "raised" if r["status"] == "raise" else "computes a wrong window value", FN[r["fn"]][1], describe(ws, [r["fn"]]), r["case"]["table"], r["detail"])
             rep.violations.append(Violation(key=r["key"], what=what, replay={"module": "cbc.c27", "case": dict(r["case"], backend=r["be"], fn=r["fn"])}))
+    for o in O.run_parallel(_worker_seq, make_seq_jobs(tier), chunksize=1):
+        wrap.merge(o["wrap"])
+        for k, v in o["counts"].items():
+            counts[k] += v
+        for r in o["results"]:
+            if "harness" in r:
+                rep.errors.append("harness error on sequence window %s table #%d %s: %s" % (o["ws"], r["ti"], r["be"], r["harness"]))
+                continue
+            case = {"window": o["ws"], "table": r["table"], "sequence": True}
+            key = "%s:unclassified:%s" % (PID, __import__("hashlib").sha256(repr((o["ws"], r["be"], r["table"])).encode()).hexdigest()[:8])
+            rep.violations.append(Violation(key=key, what="%s %s for %s with d=%s: %s" % (r["be"], "raised" if r["status"] == "raise" else "computes a wrong window value", r["text"], r["table"], r["detail"]),
+                                            replay={"module": "cbc.c27", "case": dict(case, backend=r["be"], fn="sequence")}))
     rep.evaluations += sum(counts.values())
     n_nontrivial = sum(v for k, v in counts.items() if k.split(":")[1] in ("ok", "fail") and not k.endswith(":empty"))
     rep.nontrivial_keys |= set((PID, i) for i in range(n_nontrivial))
@@ -402,6 +491,13 @@ def replay_case(case: Dict[str, Any]) -> bool:
     """Re-run one stored case natively; print what was observed; True iff it still fails."""
     ws = {w["id"]: w for w in window_specs()}[case["window"]]
     table = case["table"]
+    if case.get("sequence"):
+        sc = {"max_rows": len(table["x"])}
+        tabs = tables(ws["np"], ws["no"], sc["max_rows"])
+        o = _worker_seq({"ws": ws["id"], "tis": [tabs.index(table)], "sc": sc})
+        for r in o["results"]:
+            print(r.get("be"), r.get("status"), r.get("text"), r.get("detail"))
+        return bool(o["results"])
     fns = [case["fn"]] if case.get("fn") else None
     print("pipeline:", describe(ws, fns or applicable(ws)))
     print("table d:", table)
